@@ -96,7 +96,7 @@ def _args(n):
 SPEC = dict(
     id="C09", corr="Corr.C09", driver="h_c09", overlay=True, extra_overlay=c09_overlay,
     targets=["Properties/C09.vo", "Corr/C09.vo"],
-    args=lambda tier, seed: _args(320 if tier == "quick" else 5000)(seed),
+    args=lambda tier, seed: _args(320 if tier == "quick" else 4000)(seed),
     search_args=lambda seed: _args(600)(seed),
     shard=40, timeout=2400,
     patterns={2: "C09-lingering-address"},
